@@ -71,6 +71,11 @@ func Alphabet(cfg Config, thorough bool) []string {
 		}
 		return a
 	}
+	if cfg.Wild {
+		// one read guarded by two per-entity keys, the two tuples it matches, runs, advances around the
+		// controller interval and the iterator TTL
+		return []string{"t0", "t1", "rS", "trig", "aI-", "aI+", "aJ-", "aJ+"}
+	}
 	a := []string{"t0", "t1", "bulk", "rR1", "rU2", "rS", "trig", "force", "aI-", "aI+", "aJ-", "aJ+", "aQ+"}
 	if thorough {
 		a = append(a, "slow", "fail", "aQ-")
@@ -630,9 +635,10 @@ func HistJobs(thorough bool) []HistJob {
 	it, q := Config{Mode: "iter"}, Config{Mode: "query"}
 	itj, qj := Config{Mode: "iter", Jitter: 10, JitMax: true}, Config{Mode: "query", Jitter: 10, JitMax: true}
 	s := time.Second
-	jobs := []HistJob{{it, 6, 1, 45 * s, 20 * s}, {q, 7, 1, 20 * s, 7 * s}, {itj, 5, 1, 15 * s, 6 * s}, {qj, 6, 1, 10 * s, 4 * s}}
+	itw := Config{Mode: "iter", Wild: true}
+	jobs := []HistJob{{it, 6, 1, 45 * s, 20 * s}, {q, 7, 1, 20 * s, 7 * s}, {itj, 5, 1, 15 * s, 6 * s}, {qj, 6, 1, 10 * s, 4 * s}, {itw, 5, 1, 25 * s, 8 * s}}
 	if thorough {
-		jobs = []HistJob{{it, 7, 1, 6 * time.Minute, 4 * time.Minute}, {q, 9, 1, 3 * time.Minute, 100 * s}, {itj, 7, 0, 3 * time.Minute, 0}, {qj, 8, 1, 2 * time.Minute, 50 * s}}
+		jobs = []HistJob{{it, 7, 1, 6 * time.Minute, 4 * time.Minute}, {q, 9, 1, 3 * time.Minute, 100 * s}, {itj, 7, 0, 3 * time.Minute, 0}, {qj, 8, 1, 2 * time.Minute, 50 * s}, {itw, 6, 1, 4 * time.Minute, 2 * time.Minute}}
 	}
 	if d, err := strconv.Atoi(os.Getenv("CCTL_DEPTH")); err == nil { // development aid
 		for i := range jobs {
